@@ -4,7 +4,7 @@
    receiver has reported every written byte in order, exactly one end marker when a FIN was written, and
    the sender is_finished.  [complete] is a Gallina function (executable: see [complete_example]). *)
 From Coq Require Import ZArith List Bool Lia ZifyBool Permutation.
-From AQ Require Import lib.Base model.RangeSet model.StreamRecv model.StreamSpec model.StreamSend model.NetSys
+From AQ Require Import lib.Base model.RangeSet model.StreamRecv model.StreamSpec model.StreamSend model.NetSys model.NetSysLive
   proofs.RangeSetP proofs.ListZ proofs.StreamRecvP proofs.StreamSendP proofs.NetSysP proofs.NetSysP2 proofs.NetSysP3.
 
 (* ---------- schedules ---------- *)
@@ -79,17 +79,6 @@ Proof.
 Qed.
 
 (* ---------- phase A: LOST for every frame without outcome ---------- *)
-Definition lose1 (f : eframe) : eframe :=
-  if noout f then mkEF (ef_off f) (ef_data f) (ef_fin f) (ef_deliv f) (Some false) else f.
-
-Fixpoint lose_from (i : Z) (l : list eframe) : list nop :=
-  match l with
-  | [] => []
-  | f :: t => (if noout f then [NOutcome i false] else []) ++ lose_from (i + 1) t
-  end.
-
-Definition lose_all (s : net) : list nop := lose_from 0 (n_emitted s).
-
 Lemma nthE_mid (pre : list eframe) f t : nthE (pre ++ f :: t) (Zlen pre) = Some f.
 Proof.
   unfold nthE, Zlen. assert (E : Z.of_nat (length pre) <? 0 = false) by lia. rewrite E, Nat2Z.id.
@@ -174,11 +163,6 @@ Proof.
 Qed.
 
 (* ---------- phase B: emit / deliver / acknowledge ---------- *)
-(* number of emit rounds needed for the pending ranges with budget ms: sum of ceil(len / ms) *)
-Fixpoint rsum (ms : Z) (l : rs) : Z :=
-  match l with [] => 0 | (a, b) :: t => (b - a + ms - 1) / ms + rsum ms t end.
-Definition rounds (ms : Z) (st : send) : Z := rsum ms (s_pending st) + b2z (s_pending_eof st).
-
 Fixpoint psize (l : rs) : Z := match l with [] => 0 | (a, b) :: t => (b - a) + psize t end.
 
 Lemma ceil_pos ms n : 0 < ms -> 0 < n -> 1 <= (n + ms - 1) / ms <= n.
@@ -282,30 +266,6 @@ Proof.
 Qed.
 
 (* one round: the three steps and what they do *)
-Definition round_ops (ms : Z) (s : net) : list nop :=
-  let k := Zlen (n_emitted s) in [NEmit ms None; NDeliver k; NOutcome k true].
-
-Fixpoint pump (fuel : nat) (ms : Z) (s : net) : list nop :=
-  match fuel with
-  | O => []
-  | S fuel =>
-      match get_frame (n_send s) ms None with
-      | (SFrame _ _ _, _) =>
-          match run_sched s (round_ops ms s) with
-          | Some s' => round_ops ms s ++ pump fuel ms s'
-          | None => []
-          end
-      | _ => []
-      end
-  end.
-
-(* the continuation *)
-Definition complete (ms : Z) (s : net) : list nop :=
-  match run_sched s (lose_all s) with
-  | Some s1 => lose_all s ++ pump (Z.to_nat (rounds ms (n_send s1))) ms s1
-  | None => lose_all s
-  end.
-
 Lemma ack_keeps_pending st a b f :
   s_pending (snd (on_data_delivery st true a b f)) = s_pending st /\
   s_pending_eof (snd (on_data_delivery st true a b f)) = s_pending_eof st.
@@ -466,9 +426,6 @@ Proof.
 Qed.
 
 (* ---------- the theorem ---------- *)
-(* [after_loss s]: the state after phase A (every frame without outcome declared LOST) *)
-Definition after_loss (s : net) : net := match run_sched s (lose_all s) with Some s1 => s1 | None => s end.
-
 Lemma fair_schedule_completes s ms : nreach s -> 0 < ms ->
   exists s', run_sched s (complete ms s) = Some s' /\ Forall data_op (complete ms s) /\
     n_written s' = n_written s /\ n_dbytes s' = n_written s /\
